@@ -12,28 +12,46 @@ open BearVerif.Extracted
 
 /-! ### the extracted exception / warning algebra -/
 
-/-- The extracted hierarchies are well formed: class names are unique and every base class is defined before its
-    subclasses (acyclic), so `Table.under` with fuel = table size is the full `issubclass` relation. -/
+/-- short names for the anchored classes -/
+abbrev A : Anchors := roarAnchors
+
+/-- The indices used below denote the classes they are named after (the only place where class NAMES are compared). -/
+theorem C11_anchors :
+    roarExc.nameIs A.exception "BeartypeException" ∧ roarExc.nameIs A.callException "BeartypeCallException" ∧
+    roarExc.nameIs A.decorException "BeartypeDecorException" ∧ roarExc.nameIs A.hintViolation "BeartypeHintViolation" ∧
+    roarExc.nameIs A.decorHintViolation "BeartypeDecorHintViolation" ∧
+    roarExc.nameIs A.callHintViolation "BeartypeCallHintViolation" ∧
+    roarExc.nameIs A.doorHintViolation "BeartypeDoorHintViolation" ∧ roarExc.nameIs A.doorException "BeartypeDoorException" ∧
+    roarExc.nameIs A.valeException "BeartypeValeException" ∧ roarExc.nameIs A.confException "BeartypeConfException" ∧
+    roarExc.nameIs A.decorHintException "BeartypeDecorHintException" ∧
+    roarExc.nameIs A.callHintException "BeartypeCallHintException" ∧
+    roarExc.nameIs A.nonpep "BeartypeDecorHintNonpepException" ∧
+    roarExc.nameIs A.pepUnsupported "BeartypeDecorHintPepUnsupportedException" ∧
+    roarExc.nameIs A.pep484 "BeartypeDecorHintPep484Exception" ∧
+    roarExc.nameIs A.mixin "_BeartypeHintForwardRefExceptionMixin" ∧ roarWarn.nameIs A.warning "BeartypeWarning" := by
+  refine ⟨?_, ?_, ?_, ?_, ?_, ?_, ?_, ?_, ?_, ?_, ?_, ?_, ?_, ?_, ?_, ?_, ?_⟩ <;> decide +kernel
+
+/-- The extracted hierarchies are well formed: every base class is defined before its subclasses (acyclic) and the
+    ancestor list each row carries is the reflexive-transitive closure of `bases`, so `Table.under` is `issubclass`. -/
 theorem C11_hierarchy_wf : roarExc.wf = true ∧ roarWarn.wf = true := by
   constructor <;> decide +kernel
 
 /-- "Public" is one notion: a class is re-exported by `beartype.roar` iff its name has no leading underscore (no internal
     class is exported, no public class is forgotten). -/
 theorem C11_public_iff_exported :
-    (roarExc ++ roarWarn).all (fun r => r.exported == isPublicName r.name) = true := by decide +kernel
+    (roarExc ++ roarWarn).all (fun r => r.exported == r.isPublic) = true := by decide +kernel
 
 /-- **Every public exception class is a `BeartypeException`** — and so is every internal one except the forward-reference
     mixin (which is never raised by itself), so that `except BeartypeException` catches whatever beartype raises. -/
 theorem C11_public_under_BeartypeException :
-    roarExc.all (fun r => roarExc.underName r.name "BeartypeException" ||
-                          r.name == "_BeartypeHintForwardRefExceptionMixin") = true ∧
-    roarExc.all (fun r => !r.exported || roarExc.underName r.name "BeartypeException") = true := by
+    (List.range roarExc.length).all (fun c => roarExc.under c A.exception || c == A.mixin) = true ∧
+    (List.range roarExc.length).all (fun c => !roarExc.publicAt c || roarExc.under c A.exception) = true := by
   constructor <;> decide +kernel
 
 /-- The roots are what the documentation says: `BeartypeException` derives `Exception` directly, `BeartypeWarning`
-    derives `UserWarning` directly. -/
+    derives `UserWarning` directly (foreign base codes 0 and 1). -/
 theorem C11_roots :
-    roarExc.basesOf "BeartypeException" = ["Exception"] ∧ roarWarn.basesOf "BeartypeWarning" = ["UserWarning"] := by
+    roarExc.basesOf A.exception = ([], [0]) ∧ roarWarn.basesOf A.warning = ([], [1]) := by
   constructor <;> decide +kernel
 
 /-- **The decoration-time and call-time families are rooted as documented**: `BeartypeDecorException` and
@@ -41,41 +59,41 @@ theorem C11_roots :
     `BeartypeHintViolation` ⟵ `BeartypeDecorHintViolation`, `BeartypeCallHintViolation` ⟵ `BeartypeDoorHintViolation`;
     the door and validator families hang directly under the root. -/
 theorem C11_families_rooted :
-    roarExc.basesOf "BeartypeDecorException" = ["BeartypeException"] ∧
-    roarExc.basesOf "BeartypeCallException" = ["BeartypeException"] ∧
-    roarExc.basesOf "BeartypeHintViolation" = ["BeartypeException"] ∧
-    roarExc.basesOf "BeartypeDecorHintViolation" = ["BeartypeHintViolation"] ∧
-    roarExc.basesOf "BeartypeCallHintViolation" = ["BeartypeHintViolation"] ∧
-    roarExc.basesOf "BeartypeDoorHintViolation" = ["BeartypeCallHintViolation"] ∧
-    roarExc.basesOf "BeartypeDoorException" = ["BeartypeException"] ∧
-    roarExc.basesOf "BeartypeValeException" = ["BeartypeException"] ∧
-    roarExc.basesOf "BeartypeDecorHintException" = ["BeartypeDecorException"] ∧
-    roarExc.basesOf "BeartypeCallHintException" = ["BeartypeCallException"] := by
+    roarExc.basesOf A.decorException = ([A.exception], []) ∧
+    roarExc.basesOf A.callException = ([A.exception], []) ∧
+    roarExc.basesOf A.hintViolation = ([A.exception], []) ∧
+    roarExc.basesOf A.decorHintViolation = ([A.hintViolation], []) ∧
+    roarExc.basesOf A.callHintViolation = ([A.hintViolation], []) ∧
+    roarExc.basesOf A.doorHintViolation = ([A.callHintViolation], []) ∧
+    roarExc.basesOf A.doorException = ([A.exception], []) ∧
+    roarExc.basesOf A.valeException = ([A.exception], []) ∧
+    roarExc.basesOf A.decorHintException = ([A.decorException], []) ∧
+    roarExc.basesOf A.callHintException = ([A.callException], []) := by
   refine ⟨?_, ?_, ?_, ?_, ?_, ?_, ?_, ?_, ?_, ?_⟩ <;> decide +kernel
 
 /-- the four time-stamped families -/
-def timeRoots : List String :=
-  ["BeartypeDecorException", "BeartypeCallException", "BeartypeDecorHintViolation", "BeartypeCallHintViolation"]
+def timeRoots : List Nat := [A.decorException, A.callException, A.decorHintViolation, A.callHintViolation]
 
 /-- **Decoration-time and call-time families are disjoint**: no class (public or internal) lies under two of
     `BeartypeDecorException`, `BeartypeCallException`, `BeartypeDecorHintViolation`, `BeartypeCallHintViolation`; a
     handler for one time never catches the other. -/
 theorem C11_decor_call_disjoint :
-    roarExc.all (fun r => (timeRoots.filter (fun root => roarExc.underName r.name root)).length ≤ 1) = true := by
+    (List.range roarExc.length).all
+      (fun c => (timeRoots.filter (fun root => roarExc.under c root)).length ≤ 1) = true := by
   decide +kernel
 
 /-- **Every warning class is a `BeartypeWarning`.** -/
 theorem C11_warnings_under_BeartypeWarning :
-    roarWarn.all (fun r => roarWarn.underName r.name "BeartypeWarning") = true := by decide +kernel
+    (List.range roarWarn.length).all (fun c => roarWarn.under c A.warning) = true := by decide +kernel
 
 /-- Every family an entry point is allowed to raise from is a public class of the hierarchy under `BeartypeException`;
     what the door functions document is inside their allowed families (or is the configuration family). -/
 theorem C11_allowed_roots_public :
-    Entry.all.all (fun e => e.allowedRoots.all (fun r =>
-      isPublicName r && roarExc.exportedName r && roarExc.underName r "BeartypeException")) = true ∧
-    roarDoorDocumented.all (fun (fn, cs) => cs.all (fun c =>
-      roarExc.allowed (if fn == "is_bearable" then .isBearable else .dieIfUnbearable) c ||
-      roarExc.underName c "BeartypeConfException")) = true := by
+    Entry.all.all (fun e => (e.allowedRoots A).all (fun r => roarExc.publicAt r && roarExc.under r A.exception)) = true ∧
+    roarDoorDocumented.all (fun (fn, _, c) => match c with
+      | none => false
+      | some c => roarExc.allowed A (if fn == "is_bearable" then .isBearable else .dieIfUnbearable) c ||
+                  roarExc.under c A.confException) = true := by
   constructor <;> decide +kernel
 
 /-- **Every extracted `raise X(…)` site raises a class rooted in `BeartypeException`, or is accounted for**: a
@@ -85,11 +103,15 @@ theorem C11_allowed_roots_public :
     beartype says `raise TypeError(` on a hint path; every explicit `exception_cls=` keyword and every literally named
     warning class is rooted likewise (`DeprecationWarning` only in the two deprecation helpers). -/
 theorem C11_raise_sites_rooted_or_wrapped :
-    roarRaiseSites.all (fun s => s.ok roarExc "BeartypeException" &&
-      (s.kind != .roar || !roarWarn.has s.cls)) = true ∧
-    roarExcKeywords.all (fun (_, _, _, c) => roarExc.underName c "BeartypeException") = true ∧
-    roarWarnSites.all (fun (_, fn, c) => roarWarn.underName c "BeartypeWarning" || c == "warning_cls" ||
-      (c == "DeprecationWarning" && (fn == "issue_warning_deprecated_option" || fn == "deprecate_module_attr"))) = true := by
+    roarRaiseSites.all (fun s => s.ok roarExc A.exception) = true ∧
+    roarExcKeywords.all (fun (_, _, _, _, c) => match c with
+      | some c => roarExc.under c A.exception
+      | none => false) = true ∧
+    roarWarnSites.all (fun (_, fn, _, w) => match w with
+      | .warn i => roarWarn.under i A.warning
+      | .param => true
+      | .deprecation => deprecationWarners.contains fn
+      | .other => false) = true := by
   refine ⟨?_, ?_, ?_⟩ <;> decide +kernel
 
 /-- **Placeholder messages are provably wrapped**: every executed mention of `EXCEPTION_PLACEHOLDER` is lexically under a
@@ -173,18 +195,17 @@ theorem C11_classify_table (sv : Bool) (d : HintDescr) :
   rcases d with ⟨pep, nr, ty, inst, tup⟩
   rcases pep with _ | sup
   · -- not PEP-compliant
-    cases ty <;> cases inst <;> cases nr <;>
+    cases ty <;> cases inst <;> cases nr <;> cases h : tupleOk sv tup <;>
       simp [classify, isHint, isHintPep, isHintPepSupported, isHintNonpep, isNonpepType, dieUnlessNonpep,
-        dieIfPepUnsupported] <;>
-      (cases h : (match tup with | some items => isNonpepTuple sv items | none => false) <;> simp_all)
+        dieIfPepUnsupported, h]
   · cases sup <;> cases nr <;>
       simp [classify, isHint, isHintPep, isHintPepSupported, dieIfPepUnsupported]
 
 /-- **Whatever the object, the answer to a bad hint is a public decoration-time hint exception.** -/
 theorem C11_classify_outcome_public (sv : Bool) (d : HintDescr) :
-    match (classify sv d).cls with
+    match (classify sv d).cls A with
     | none => classify sv d = .accepted
-    | some c => roarExc.allowed .decor c = true ∧ roarExc.underName c "BeartypeDecorHintException" = true := by
+    | some c => roarExc.allowed A .decor c = true ∧ roarExc.under c A.decorHintException = true := by
   cases h : classify sv d <;> simp only [Outcome.cls] <;> constructor <;> decide +kernel
 
 /-- Objects that are no hints at all (neither PEP-compliant, nor a class, nor a tuple — integers, strings of a tuple,
@@ -242,13 +263,15 @@ theorem C11_door_user_exception_unchanged (s : Step) (e : Exc) :
 /-! ### non-vacuity: concrete, non-trivial instances -/
 
 /-- the extracted hierarchy has the shape the theorems talk about -/
-example : roarExc.underName "BeartypeDoorHintViolation" "BeartypeHintViolation" = true ∧
-    roarExc.underName "BeartypeDoorHintViolation" "BeartypeCallException" = false ∧
-    roarExc.allowed .call "BeartypeCallHintParamViolation" = true ∧
-    roarExc.allowed .decor "BeartypeCallHintParamViolation" = false ∧
-    roarExc.allowed .decor "_BeartypeUtilCallableException" = false ∧
-    roarExc.allowed .decor "TypeError" = false := by
-  refine ⟨?_, ?_, ?_, ?_, ?_, ?_⟩ <;> decide +kernel
+example : roarExc.under A.doorHintViolation A.hintViolation = true ∧
+    roarExc.under A.doorHintViolation A.callException = false ∧
+    roarExc.allowed A .dieIfUnbearable A.doorHintViolation = true ∧
+    roarExc.allowed A .call A.doorHintViolation = true ∧
+    roarExc.allowed A .decor A.doorHintViolation = false ∧
+    roarExc.allowed A .isBearable A.doorHintViolation = false ∧
+    roarExc.allowed A .decor A.mixin = false ∧
+    roarExc.allowed A .decor roarExc.length = false := by
+  refine ⟨?_, ?_, ?_, ?_, ?_, ?_, ?_, ?_⟩ <;> decide +kernel
 
 /-- a history mixing an unhashable argument, a cached `TypeError` of the function's own and a cached value -/
 example :
